@@ -4,7 +4,7 @@ EXTENDS LogStrain, Judge
 Check(name, b) == IF b THEN {} ELSE {name}
 SeqEq(a, b) == Len(a) = Len(b) /\ \A i \in 1..Len(a) : a[i] = b[i]
 Dim(o) == "N=" \o ToString(o.n)
-Where(o) == Dim(o) \o (IF Perturbed(o) THEN ":near" ELSE IF Ties(o) THEN ":ties" ELSE "")
+Where(o) == Dim(o) \o (IF Perturbed(o) THEN ":near:t=" \o ToString(o.t) ELSE IF Ties(o) THEN ":ties" ELSE "")
 Fails(o) ==
   IF o.threw THEN {"exception:" \o Where(o)}
   ELSE
